@@ -258,7 +258,8 @@ def run(ctx, res):
     from .. import adopt
     for fn_ in sorted({f for f, o in slots.get(("Storage", "set"), set()) if f.startswith("raw")}):
         adopt.rule_set_adopts(prog, res, prog.func(fn_))
-    res.require_min("R-SET-ADOPTS", 1)
+        res.guard(adopt.rule_set_adopts_all, prog, res, prog.func(fn_))
+    res.require_min("R-SET-ADOPTS", 2)
     res.require_min("CURSOR-SIM", 4)
     res.require_min("R-APPEND-ADVANCE", 1)
     res.require_min("R-WRITEALL", 4)
